@@ -35,7 +35,7 @@ GhostInit(s) == [ref |-> [c \in Chains(s) |-> {}], exe |-> [c \in Chains(s) |-> 
 ExecutedNow(pre, post, c) ==
     UNION {RangeOf(b.txs) : b \in {b \in pre.ch[c].bat : \E ev \in AppliedEvents(pre, post, c) : ev.t = "Exec" /\ ev.tok = b.tok /\ ev.bn = b.n}}
 
-Expired(s, tr, tNow) == tr.ct + s.cfg.out_timeout < tNow
+Expired(s, tr, tNow) == tr.ct + Cfg(s).out_timeout < tNow
 
 GhostNext(g, pre, a, res, post) ==
     [ref |-> [c \in Chains(post) |->
@@ -121,8 +121,8 @@ C13Checks(pre, a, post) ==
       : c \in Chains(post)}
 
 \* ---------------------------------------------------------------- C12  cancellation and expiry
-HubValue(s, c, tr) == LET tok == TokByExt(s.cfg, c, tr.tok) IN ConvDec(tok.dec, 18, tr.a + tr.f + tr.c)
-DenomOfTr(s, c, tr) == TokByExt(s.cfg, c, tr.tok).denom
+HubValue(s, c, tr) == LET tok == TokByExt(Cfg(s), c, tr.tok) IN ConvDec(tok.dec, 18, tr.a + tr.f + tr.c)
+DenomOfTr(s, c, tr) == TokByExt(Cfg(s), c, tr.tok).denom
 \* a cancel is accepted iff the id is in the pool of that chain and the message sender is the recorded sender
 C12Cancel(g, pre, a, res, post) ==
     IF a.k # "Cancel" THEN {}
@@ -136,7 +136,7 @@ C12Cancel(g, pre, a, res, post) ==
                THEN LET tr == CHOOSE tr \in hit : TRUE
                         d  == DenomOfTr(pre, c, tr)
                         got == BalOf(post, a.from, d) - BalOf(pre, a.from, d)
-                        dec == TokByExt(pre.cfg, c, tr.tok).dec
+                        dec == TokByExt(Cfg(pre), c, tr.tok).dec
                     IN   Fail(tr.rc = "hub" /\ Has(g.taken[c], tr.id) /\ got # g.taken[c][tr.id],
                               "C12:RefundExact", IF dec < 18 /\ got = HubValue(pre, c, tr) /\ got < g.taken[c][tr.id] THEN "dust" ELSE "hub")
                     \cup Fail(tr.rc = "hub" /\ ~Has(g.taken[c], tr.id) /\ got # HubValue(pre, c, tr), "C12:RefundExact", "hub")
@@ -144,8 +144,8 @@ C12Cancel(g, pre, a, res, post) ==
                     \cup Fail(tr.rc \notin {"hub", ""} /\
                               ~\E r \in post.ch[tr.rc].pool \ pre.ch[tr.rc].pool :
                                    r.d = tr.ra /\ r.f = 0 /\ r.c = 0 /\
-                                   ConvDec(TokByExt(pre.cfg, tr.rc, r.tok).dec, 18, r.a) <= HubValue(pre, c, tr) /\
-                                   r.a = ConvDec(18, TokByExt(pre.cfg, tr.rc, r.tok).dec, HubValue(pre, c, tr)),
+                                   ConvDec(TokByExt(Cfg(pre), tr.rc, r.tok).dec, 18, r.a) <= HubValue(pre, c, tr) /\
+                                   r.a = ConvDec(18, TokByExt(Cfg(pre), tr.rc, r.tok).dec, HubValue(pre, c, tr)),
                               "C12:RefundExact", "cross")
                ELSE {})
 
@@ -153,7 +153,10 @@ C12Cancel(g, pre, a, res, post) ==
 C12Expiry(g, pre, a, post) ==
     IF a.k # "End" THEN {}
     ELSE UNION {
-          Fail(\E tr \in pre.ch[c].pool : Expired(pre, tr, pre.t) /\ tr.id \in LiveIds(post, c), "C12:ExpiredKept", c)
+          \* (an entry whose amounts were truncated to zero external units cannot be refunded across chains:
+          \*  the bank rejects the zero coin -- part of the recorded dust finding)
+          UNION {Fail(Expired(pre, tr, pre.t) /\ tr.id \in LiveIds(post, c), "C12:ExpiredKept",
+                      IF HubValue(pre, c, tr) = 0 /\ tr.rc \notin {"hub", ""} THEN "zero-dust" ELSE c) : tr \in pre.ch[c].pool}
      \cup Fail(\E tr \in pre.ch[c].pool : ~Expired(pre, tr, pre.t) /\ tr.id \notin LiveIds(post, c), "C12:RefundedEarly", c)
           \* hub-origin transfers that expire pay their sender back what was taken (several may expire at once)
      \cup UNION {
@@ -178,7 +181,7 @@ C12Expiry(g, pre, a, post) ==
 C11Send(pre, a, res, post) ==
     IF a.k # "Send" \/ res.out # "ok" THEN {}
     ELSE LET c   == a.chain
-             tok == TokByDenom(pre.cfg, c, a.denom)
+             tok == TokByDenom(Cfg(pre), c, a.denom)
              new == post.ch[c].pool \ pre.ch[c].pool
          IN IF Cardinality(new) # 1 THEN {<<"C11:OneEntry", c>>}
             ELSE LET tr == CHOOSE tr \in new : TRUE
@@ -189,6 +192,36 @@ C11Send(pre, a, res, post) ==
                  \cup Fail(~\E k \in 0..maxc : tr.c = ConvDec(18, tok.dec, k) /\ tr.a = ConvDec(18, tok.dec, a.amt - k), "C11:AmountMinusCommission", c)
                  \cup Fail(tr.s # a.from \/ tr.d # a.dest \/ tr.ra # a.from \/ tr.rc # "hub", "C11:Parties", c)
                  \cup Fail(post.sup[a.denom] # pre.sup[a.denom] - (a.amt + a.fee), "C11:BurnExact", c)
+
+\* deposit side: an applied deposit to the hub credits its recipient exactly the locked amount converted with
+\* truncation, and nobody else; a deposit forwarded to another chain schedules amount - commission - fee
+C11Deposit(pre, a, post) ==
+    IF a.k # "End" THEN {}
+    ELSE LET evs == UNION {{<<c, ev>> : ev \in {ev \in AppliedEvents(pre, post, c) : ev.t \in {"Deposit", "ToHub"}}} : c \in Chains(pre)}
+             toHub(p) == p[2].t = "ToHub" \/ p[2].rch = "hub"
+             credit(acct, d) == FoldSet(LAMBDA p, acc : acc +
+                                   (LET tok == TokByExt(Cfg(pre), p[1], p[2].tok)
+                                    IN IF toHub(p) /\ p[2].rcv = acct /\ Found(tok) /\ tok.denom = d THEN ConvDec(tok.dec, 18, p[2].amt) ELSE 0), 0, evs)
+             \* accounts that are refunded by an expiry in the same block are judged by C12
+             refunded(acct) == \E c \in Chains(pre) : \E tr \in pre.ch[c].pool : tr.s = acct /\ Expired(pre, tr, pre.t)
+         IN UNION {UNION {
+                Fail(~refunded(acct) /\ acct \notin {"tmp", "mod"} /\ post.bal[acct][d] - pre.bal[acct][d] # credit(acct, d), "C11:DepositCredit", acct)
+              : d \in DOMAIN pre.sup} : acct \in DOMAIN pre.bal}
+            \cup UNION {
+                LET c == p[1]  ev == p[2]
+                    src == TokByExt(Cfg(pre), c, ev.tok)
+                    dst == IF Found(src) /\ ev.t = "Deposit" /\ ev.rch \in Chains(pre) THEN TokByDenom(Cfg(pre), ev.rch, src.denom) ELSE [id |-> 0]
+                IN IF toHub(p) \/ ~Found(dst) \/ ev.rch = "hub" THEN {}
+                   ELSE LET new  == {tr \in post.ch[ev.rch].pool \ pre.ch[ev.rch].pool : tr.x = ev.txh}
+                            camt == ConvDec(src.dec, 18, ev.amt)
+                            cfee == ConvDec(src.dec, 18, ev.fee)
+                            maxc == (dst.rnum * camt) \div dst.rden
+                        IN  \* either the forward was scheduled exactly, or the whole deposit was dropped (nothing minted)
+                            Fail(new # {} /\ ~\E tr \in new : \E k \in 0..maxc :
+                                     tr.c = ConvDec(18, dst.dec, k) /\ tr.f = ConvDec(18, dst.dec, cfee) /\
+                                     tr.a = ConvDec(18, dst.dec, camt - k - cfee) /\ tr.d = ev.rcv /\ tr.ra = ev.snd /\ tr.rc = c,
+                                 "C11:ForwardExact", ev.rch)
+                : p \in evs}
 
 \* other accounts are untouched by a Send / Cancel / ReqBatch / Claim / Confirm / SetKeys message
 C11Others(pre, a, res, post) ==
@@ -244,14 +277,14 @@ C05Checks(a, res) == Fail(a.k \in {"Begin", "End"} /\ res.out # "ok", "C05:Block
 \* A deviation switch that stands for a recorded (not repaired) finding excuses exactly the check detail that
 \* describes it; every other failure of the same property is still a violation.
 Excused(f) ==
-    \/ "RefundTruncatedDust" \in Dev /\ f \in {<<"C12:RefundExact", "dust">>, <<"C12:ExpiryRefundExact", "dust">>}
+    \/ "RefundTruncatedDust" \in Dev /\ f \in {<<"C12:RefundExact", "dust">>, <<"C12:ExpiryRefundExact", "dust">>, <<"C12:ExpiredKept", "zero-dust">>}
 
 \* ---------------------------------------------------------------- all step checks that need no external world
 StepChecks(g, pre, a, res, post) ==
        C04Checks(g, pre, a, res, post) \cup C04Status(pre, post)
   \cup C10Checks(pre, a, post) \cup C13Checks(pre, a, post)
   \cup C12Cancel(g, pre, a, res, post) \cup C12Expiry(g, pre, a, post)
-  \cup C11Send(pre, a, res, post) \cup C11Others(pre, a, res, post)
+  \cup C11Send(pre, a, res, post) \cup C11Others(pre, a, res, post) \cup C11Deposit(pre, a, post)
   \cup C02Checks(pre, a, post) \cup C02Vote(pre, a, res, post) \cup C03Checks(pre, a, res, post) \cup C05Checks(a, res)
 
 =============================================================================
